@@ -42,7 +42,7 @@ TraceInit ==
                  c.iso, c.policy,
                  [p \in Parts |-> IF p \in DOMAIN c.committed THEN c.committed[p] ELSE None])
   /\ pendApi = [p \in Parts |-> "none"]
-  /\ oor = [p \in Parts |-> FALSE]
+  /\ oor = [p \in Parts |-> -1]     \* offset of the last OFFSET_OUT_OF_RANGE reply not yet acted upon
   /\ out = [p \in Parts |-> <<>>]
 
 Same == UNCHANGED <<pendApi, oor, out>>
@@ -62,8 +62,10 @@ TAwaitReset ==
           /\ pendApi' = [pendApi EXCEPT ![p] = "none"] /\ UNCHANGED <<oor, out>>
      ELSE IF fresh[p] /\ pos[p] = None /\ rst[p] = "none"
      THEN /\ NoCommitted(p) /\ policy # "none" /\ Ev.s = policy /\ Same
-     ELSE /\ oor[p] /\ policy # "none" /\ Ev.s = policy /\ AwaitReset(p, Ev.s)
-          /\ oor' = [oor EXCEPT ![p] = FALSE] /\ UNCHANGED <<pendApi, out>>
+     \* C13/C03: an out-of-range report counts only for the position it was asked for -- after a seek() the
+     \* late report is about an offset the consumer already left and must be ignored
+     ELSE /\ oor[p] # -1 /\ pos[p] = oor[p] /\ policy # "none" /\ Ev.s = policy /\ AwaitReset(p, Ev.s)
+          /\ oor' = [oor EXCEPT ![p] = -1] /\ UNCHANGED <<pendApi, out>>
 
 TSeekToCall ==
   /\ IsEvent("SeekToCall")
@@ -83,7 +85,7 @@ TFetchReply ==
   /\ LET p == Ev.tp IN
      IF Ev.code = 1
      THEN /\ OutOfRange(p, Ev.off)
-          /\ oor' = [oor EXCEPT ![p] = TRUE] /\ UNCHANGED <<vars, pendApi, out>>
+          /\ oor' = [oor EXCEPT ![p] = Ev.off] /\ UNCHANGED <<vars, pendApi, out>>
      ELSE IF Ev.code = 0 /\ Ev.batches # <<>>
      THEN /\ HasBase(p, Ev.batches[1][1]) /\ HasBase(p, Ev.batches[Len(Ev.batches)][1])
           /\ LET i == IdxOfBase(p, Ev.batches[1][1])
@@ -145,10 +147,10 @@ TErrorSet ==
   /\ IsEvent("ErrorSet")
   /\ policy = "none"
   /\ \/ Ev.err = "NoOffsetForPartitionError" /\ committed[Ev.tp] = None /\ pos[Ev.tp] = None
-     \/ Ev.err = "OffsetOutOfRangeError" /\ oor[Ev.tp]
+     \/ Ev.err = "OffsetOutOfRangeError" /\ oor[Ev.tp] # -1 /\ pos[Ev.tp] = oor[Ev.tp]
   /\ err' = [err EXCEPT ![Ev.tp] = Ev.err]
   /\ fresh' = [fresh EXCEPT ![Ev.tp] = FALSE]
-  /\ oor' = [oor EXCEPT ![Ev.tp] = FALSE]
+  /\ oor' = [oor EXCEPT ![Ev.tp] = -1]
   /\ UNCHANGED <<asked, log, hw, iso, policy, committed, pos, rst, paused, buf, resp, start, delivered, pendApi, out>>
 
 TRaised ==
